@@ -1111,6 +1111,25 @@ VARIANTS += [
          edits=[dict(file="ipa-core/src/helpers/transport/stream/collection.rs", find='                rs @ (StreamState::Ready(_) | StreamState::Completed) => {\n                    let state = format!("{rs:?}");\n                    let key = entry.key().clone();\n                    drop(streams);\n                    panic!("{key:?} entry state expected to be waiting, got {state:?}");\n                }\n', replace='                rs @ StreamState::Ready(_) => {\n                    // the peer retried its request: keep the newer stream\n                    *rs = StreamState::Ready(stream);\n                }\n                rs @ StreamState::Completed => {\n                    let state = format!("{rs:?}");\n                    let key = entry.key().clone();\n                    drop(streams);\n                    panic!("{key:?} entry state expected to be waiting, got {state:?}");\n                }\n')]),
 ]
 
+# round B7 (second pass: C18, C13, C16, C01)
+VARIANTS += [
+    dict(prop="C16", name="b7-count-dupcheck-form", benign=True,
+         edits=[dict(file='ipa-core/src/protocol/context/batcher.rs', find='        let total_count = min(self.records_per_batch, remaining_records);\n        let record_offset_in_batch = usize::from(record_id) - first_record_in_batch;\n        let batch = self.get_batch_by_offset(batch_offset);\n        if batch.pending_records.len() <= record_offset_in_batch {\n            batch\n                .pending_records\n                .resize(record_offset_in_batch + 1, false);\n        } else {\n            assert!(\n                !batch.pending_records[record_offset_in_batch],\n                "validate_record called twice for record {record_id}",\n            );\n        }\n        // This assertion is stricter than the bounds check in `BitVec::set` when the\n        // batch size is not a multiple of 8, or for a partial final batch.\n', replace='        let total_count = min(self.records_per_batch, remaining_records);\n        let record_offset_in_batch = usize::from(record_id) - first_record_in_batch;\n        let batch = self.get_batch_by_offset(batch_offset);\n        // A record beyond the current length of `pending_records` cannot have been\n        // marked pending yet, so treat a missing bit the same as a clear bit.\n        let already_pending = batch\n            .pending_records\n            .get(record_offset_in_batch)\n            .is_some_and(|bit| *bit);\n        assert!(\n            !already_pending,\n            "validate_record called twice for record {record_id}",\n        );\n        if batch.pending_records.len() <= record_offset_in_batch {\n            batch\n                .pending_records\n                .resize(record_offset_in_batch + 1, false);\n        }\n        // This assertion is stricter than the bounds check in `BitVec::set` when the\n        // batch size is not a multiple of 8, or for a partial final batch.\n')]),
+    dict(prop="C16", name="b7-callers-value-switch", benign=True,
+         edits=[dict(file='ipa-core/src/protocol/context/batcher.rs', find='        );\n        batch.pending_records.set(record_offset_in_batch, true);\n        batch.pending_count += 1;\n        if batch.pending_count == total_count {\n            assert!(\n                batch.pending_records[0..total_count].all(),\n                "Expected batch of {total_count} records to be ready for validation, but only have {:?}.",\n                &batch.pending_records[0..total_count],\n            );\n            tracing::info!("batch {batch_index} is ready for validation");\n            let batch;\n            if batch_offset == 0 {\n                batch = self.batches.pop_front().unwrap();\n                self.first_batch += 1;\n                // Also remove any batches that completed out of order\n                while let Some(None) = self.batches.front() {\n                    self.batches.pop_front();\n                    self.first_batch += 1;\n                }\n            } else {\n                batch = self.batches[batch_offset].take();\n            }\n            let batch = batch.expect_not_yet_validated(self.first_batch + batch_offset);\n            Ok(Ready::Yes { batch_index, batch })\n        } else {\n            Ok(Ready::No(batch.validation_result.subscribe()))\n        }\n    }\n\n    /// # Panics\n', replace='        );\n        batch.pending_records.set(record_offset_in_batch, true);\n        batch.pending_count += 1;\n        if batch.pending_count != total_count {\n            return Ok(Ready::No(batch.validation_result.subscribe()));\n        }\n\n        assert!(\n            batch.pending_records[0..total_count].all(),\n            "Expected batch of {total_count} records to be ready for validation, but only have {:?}.",\n            &batch.pending_records[0..total_count],\n        );\n        tracing::info!("batch {batch_index} is ready for validation");\n        let batch;\n        if batch_offset == 0 {\n            batch = self.batches.pop_front().unwrap();\n            self.first_batch += 1;\n            // Also remove any batches that completed out of order\n            while let Some(None) = self.batches.front() {\n                self.batches.pop_front();\n                self.first_batch += 1;\n            }\n        } else {\n            batch = self.batches[batch_offset].take();\n        }\n        let batch = batch.expect_not_yet_validated(self.first_batch + batch_offset);\n        Ok(Ready::Yes { batch_index, batch })\n    }\n\n    /// # Panics\n')]),
+    dict(prop="C16", name="b7-guard-ready-ne", benign=True,
+         edits=[dict(file='ipa-core/src/protocol/context/dzkp_malicious.rs', find="        base_ctx: MaliciousContext<'a, B>,\n    ) -> Self {\n        let records_per_batch = validator_inner.batcher.lock().unwrap().records_per_batch();\n        let active_work = if records_per_batch == 1 || records_per_batch == usize::MAX {\n            // If records_per_batch is 1, let active_work be anything. This only happens\n            // in tests; there shouldn't be a risk of deadlocks with one record per\n            // batch; and UnorderedReceiver capacity (which is set from active_work)\n", replace="        base_ctx: MaliciousContext<'a, B>,\n    ) -> Self {\n        let records_per_batch = validator_inner.batcher.lock().unwrap().records_per_batch();\n        let keep_base_active_work = matches!(records_per_batch, 1 | usize::MAX);\n        let active_work = if keep_base_active_work {\n            // If records_per_batch is 1, let active_work be anything. This only happens\n            // in tests; there shouldn't be a risk of deadlocks with one record per\n            // batch; and UnorderedReceiver capacity (which is set from active_work)\n")]),
+    dict(prop="C01", name="b7-table-match-let-next", benign=True,
+         edits=[dict(file='ipa-core/src/protocol/hybrid/agg.rs', find='    V: BooleanArray,\n{\n    pub fn add_report(&mut self, new_report: AggregateableHybridReport<BK, V>) {\n        match self {\n            Self::Single(old_report) => {\n                *self = Self::Pair(old_report.clone(), new_report);\n            }\n            Self::Pair { .. } | Self::MoreThanTwo => *self = Self::MoreThanTwo,\n        }\n    }\n\n    pub fn into_pair(self) -> Option<[AggregateableHybridReport<BK, V>; 2]> {\n', replace='    V: BooleanArray,\n{\n    pub fn add_report(&mut self, new_report: AggregateableHybridReport<BK, V>) {\n        // Compute the successor state first, then store it: one report becomes a pair, anything\n        // that already holds two or more reports is discarded.\n        let next_state = match self {\n            Self::Single(first_report) => Self::Pair(first_report.clone(), new_report),\n            Self::Pair { .. } | Self::MoreThanTwo => Self::MoreThanTwo,\n        };\n        *self = next_state;\n    }\n\n    pub fn into_pair(self) -> Option<[AggregateableHybridReport<BK, V>; 2]> {\n')]),
+    dict(prop="C18", name="b7-shard-status-eq-edges", benign=True,
+         edits=[dict(file='ipa-core/src/query/processor.rs', find='        if shard_index == ShardIndex::FIRST {\n            return Err(QueryStatusError::Leader);\n        }\n        let status = self\n            .get_status(req.query_id)\n            .ok_or(QueryStatusError::NoSuchQuery(req.query_id))?;\n        if req.status != status {\n            return Err(QueryStatusError::DifferentStatus {\n                query_id: req.query_id,\n                my_status: status,\n                other_status: req.status,\n            });\n        }\n        Ok(status)\n    }\n\n    /// Awaits the query completion\n', replace='        if shard_index == ShardIndex::FIRST {\n            return Err(QueryStatusError::Leader);\n        }\n        let query_id = req.query_id;\n        let Some(my_status) = self.get_status(query_id) else {\n            return Err(QueryStatusError::NoSuchQuery(query_id));\n        };\n        if req.status == my_status {\n            Ok(my_status)\n        } else {\n            Err(QueryStatusError::DifferentStatus {\n                query_id,\n                my_status,\n                other_status: req.status,\n            })\n        }\n    }\n\n    /// Awaits the query completion\n')]),
+    dict(prop="C13", name="b7-wakers-shard-helper", benign=True,
+         edits=[dict(file='ipa-core/src/helpers/buffers/ordering_sender.rs', find="    /// `seq_join()`.\n    const CONTIGUOUS_BITS: u32 = 6;\n\n    /// Find a shard.  This ensures that sequential values pick the same shard\n    /// in a contiguous block.\n    fn shard(&self, i: usize) -> MutexGuard<'_, WaitingShard> {\n        let idx = (i >> Self::CONTIGUOUS_BITS) % Self::SHARDS;\n        self.shards[idx].lock().unwrap()\n    }\n\n", replace="    /// `seq_join()`.\n    const CONTIGUOUS_BITS: u32 = 6;\n\n    /// The position, within `shards`, of the shard that is responsible for index `i`.\n    /// The result is always less than [`Self::SHARDS`].\n    const fn shard_index(i: usize) -> usize {\n        (i >> Self::CONTIGUOUS_BITS) % Self::SHARDS\n    }\n\n    /// Find a shard.  This ensures that sequential values pick the same shard\n    /// in a contiguous block.\n    fn shard(&self, i: usize) -> MutexGuard<'_, WaitingShard> {\n        let idx = Self::shard_index(i);\n        debug_assert!(idx < self.shards.len());\n        self.shards[idx].lock().unwrap()\n    }\n\n")]),
+    dict(prop="C13", name="b7-add-stream-get-mut", benign=True,
+         edits=[dict(file='ipa-core/src/helpers/transport/stream/collection.rs', find='    /// If there was another stream associated with the same key some time in the past.\n    pub fn add_stream(&self, key: StreamKey<I>, stream: S) {\n        let mut streams = self.inner.lock().unwrap();\n        match streams.entry(key) {\n            Entry::Occupied(mut entry) => match entry.get_mut() {\n                rs @ StreamState::Waiting(_) => {\n                    let StreamState::Waiting(waker) =\n                        std::mem::replace(rs, StreamState::Ready(stream))\n                    else {\n                        unreachable!()\n                    };\n                    waker.wake();\n                }\n                rs @ (StreamState::Ready(_) | StreamState::Completed) => {\n                    let state = format!("{rs:?}");\n                    let key = entry.key().clone();\n                    drop(streams);\n                    panic!("{key:?} entry state expected to be waiting, got {state:?}");\n                }\n            },\n            Entry::Vacant(entry) => {\n                entry.insert(StreamState::Ready(stream));\n            }\n        }\n    }\n', replace='    /// If there was another stream associated with the same key some time in the past.\n    pub fn add_stream(&self, key: StreamKey<I>, stream: S) {\n        let mut streams = self.inner.lock().unwrap();\n        match streams.get_mut(&key) {\n            Some(rs @ StreamState::Waiting(_)) => {\n                let StreamState::Waiting(waker) = std::mem::replace(rs, StreamState::Ready(stream))\n                else {\n                    unreachable!()\n                };\n                waker.wake();\n            }\n            Some(rs @ (StreamState::Ready(_) | StreamState::Completed)) => {\n                let state = format!("{rs:?}");\n                drop(streams);\n                panic!("{key:?} entry state expected to be waiting, got {state:?}");\n            }\n            None => {\n                streams.insert(key, StreamState::Ready(stream));\n            }\n        }\n    }\n')]),
+]
+
+
 VARIANTS += [
     dict(prop="C03", name="hash-skips-first-element", expect=['HASH-cover', 'iterates-its-whole-argument'],
          edits=[dict(file="ipa-core/src/helpers/hashing.rs", find='    for x in input {\n        is_empty = false;\n        x.serialize(&mut buf);\n        sha.update(&buf);\n    }', replace='    for x in input.into_iter().skip(1) {\n        is_empty = false;\n        x.serialize(&mut buf);\n        sha.update(&buf);\n    }')]),
